@@ -345,6 +345,8 @@ def corpus():
         ("lingua-lines", _P([T, {"k": "expr", "calls": [_c()]}])),
         ("lingua-lines", _P([{"k": "code", "stmts": [{"calls": [_c()]}, {"calls": [_c("gettext")]}], "margin": 2}])),
         ("lingua-lines", _P([{"k": "expr", "calls": [_c()], "multi": 2, "lead_blank": 1}])),
+        ("lingua-lines-blanks", _P([{"k": "expr", "calls": [_c()], "multi": 2, "lead_blank": 1, "wsb": 1},
+                                    {"k": "code", "stmts": [{"t": "assign", "calls": [_c()]}], "lead_blank": 1, "wsb": 3}])),
         ("filter", _P([T, {"k": "filt", "calls": [_c()]}])),
         ("filter", _P([T, {"k": "filt", "calls": [_c(), _c("gettext"), _c("ngettext")], "ml": True, "pf": 2}, T])),
         ("filter", _P([T, {"k": "filt", "calls": [_c(), _c("gettext")], "nlpipe": 2, "pf": 1, "head": [_c()]}, T])),
@@ -425,7 +427,7 @@ def plan_strategy(max_items, max_depth):
     expr = st.fixed_dictionaries({
         "k": st.just("expr"), "calls": st.lists(callspec, min_size=0, max_size=3), "tc": tc, "multi": st.sampled_from([0, 0, 0, 1, 1, 2]), "pre": b, "post": b,
         "w": st.integers(0, 5), "flt": st.integers(0, 2), "more": st.lists(calls0, max_size=2), "call_first": b,
-        "lead_blank": st.integers(0, 2)})
+        "lead_blank": st.integers(0, 2), "wsb": st.sampled_from([0, 0, 1, 2, 3])})
     filt = st.fixed_dictionaries({"k": st.just("filt"), "calls": calls1, "head": calls0, "pf": st.integers(0, 2), "tc": tc,
                                   "ml": st.booleans(), "nlpipe": st.sampled_from([0, 0, 1, 2])})
     piece = st.fixed_dictionaries({"c": st.one_of(st.none(), callspec, callspec), "brk": st.sampled_from(
@@ -442,7 +444,7 @@ def plan_strategy(max_items, max_depth):
         leaf = [text, text, cdecoy, doc, texttag, expr, expr, expr, filt]
         code = st.fixed_dictionaries({
             "k": st.just("code"), "module": b, "inline": st.sampled_from([False, False, True]), "tc": tc,
-            "stmts": st.lists(stmt, min_size=1, max_size=5), "lead_blank": st.integers(0, 2),
+            "stmts": st.lists(stmt, min_size=1, max_size=5), "lead_blank": st.integers(0, 2), "wsb": st.sampled_from([0, 0, 1, 2, 3]),
             "margin": st.sampled_from([0, 2, 4, 8]), "pre": b, "post": b})
         leaf += [code, code]
         if depth >= max_depth:
